@@ -178,7 +178,8 @@ theorem setCursor_law (nc : NumCode F) (n : Nat) (st : BState) :
       (basicRStore nc).trace st' = (basicRStore nc).trace st ∧ (basicRStore nc).frames st' = (basicRStore nc).frames st ∧
       (BInv st → BInv st') :=
   ⟨{ st with cursor := n }, rfl, rfl, fun _ _ h => h, rfl, rfl, rfl, rfl, rfl, rfl, rfl, rfl,
-    fun h => ⟨h.wfq, h.fits, h.regHead, h.regPrev, h.frameSaved⟩⟩
+    fun h => ⟨h.wfq, h.fits, h.regHead, h.regPrev, h.frameSaved,
+      ⟨h.ftyped.head, h.ftyped.prev, h.ftyped.reg⟩⟩⟩
 
 theorem records_law (nc : NumCode F) (c : HostCall) : Records (basicRStore nc) (recordHost c) c := by
   intro s b s' h
